@@ -831,6 +831,24 @@ class _Alias:
                         yield self.cls(n.args[0]), n
 
 
+def _mentions(node, names) -> bool:
+    return any(isinstance(n, ast.Name) and n.id in names for n in ast.walk(node))
+
+
+def _is_sum(al, v) -> bool:
+    """`<stored array> + <something computed from a parameter>` (either order), or np.add of the two without `out`."""
+    if isinstance(v, ast.BinOp) and isinstance(v.op, ast.Add):
+        l, r = v.left, v.right
+    elif _np_call(v, ("add",)) and len(v.args) == 2 and _kw(v, "out") is None:
+        l, r = v.args
+    else:
+        return False
+    for a, b in ((l, r), (r, l)):
+        if al.cls(a) in (STORED, PROP) and al.cls(b)[0] in ("param", "fresh") and _mentions(b, al.params):
+            return True
+    return False
+
+
 def _self_attr(node, names) -> str | None:
     if (isinstance(node, ast.Attribute) and isinstance(node.value, ast.Name) and node.value.id == "self"
             and node.attr in names):
@@ -881,20 +899,12 @@ def _identity(tree) -> dict:
                 else:
                     res["binds_param"] = True
             elif fn.name == "add_charge_array" and attr == "_array":
-                # a NEW array: must be the sum of the stored one and the argument
-                v = node.value
-                ok = False
-                if isinstance(v, ast.BinOp) and isinstance(v.op, ast.Add):
-                    cl = {al.cls(v.left)[0], al.cls(v.right)[0]}
-                    ok = cl == {"stored", "param"}
-                elif _np_call(v, ("add",)) and len(v.args) == 2 and _kw(v, "out") is None:
-                    cl = {al.cls(v.args[0])[0], al.cls(v.args[1])[0]}
-                    ok = cl == {"stored", "param"}
+                # a NEW array: must be the sum of the stored one and (something computed from) the argument
                 if c == STORED:
-                    ok = True                                 # self._array = self._array: no change
-                elif ok:
+                    continue                                  # self._array = self._array: no change
+                if _is_sum(al, node.value):
                     modes.add("AddFresh")
-                if not ok:
+                else:
                     fail(node, "add_charge_array: self._array is rebound to something that is not "
                                "`self._array + <argument>`")
         for c, node in al.written():
@@ -906,12 +916,20 @@ def _identity(tree) -> dict:
                 else:
                     res["binds_param"] = True
             elif c == STORED and fn.name == "add_charge_array":
-                # in-place accumulation: `self._array += <argument>` / np.add(self._array, <argument>, out=self._array)
-                if isinstance(node, ast.AugAssign) and isinstance(node.op, ast.Add) and _self_attr(node.target, ("_array",)):
-                    if al.cls(node.value)[0] not in ("param", "fresh"):
+                # in-place accumulation: `self._array += <argument>`, `self._array[...] += <argument>`,
+                # `self._array[...] = self._array + <argument>`, np.add(self._array, <argument>, out=self._array)
+                def stored_target(t):
+                    return _self_attr(t, ("_array",)) or (isinstance(t, ast.Subscript) and _self_attr(t.value, ("_array",)))
+
+                if isinstance(node, ast.AugAssign) and isinstance(node.op, ast.Add) and stored_target(node.target):
+                    if not _mentions(node.value, al.params):
                         fail(node, "add_charge_array: `self._array += ...` must add the argument")
                     modes.add("AddInPlace")
-                elif isinstance(node, ast.Call) and _np_call(node, ("add",)) and len(node.args) == 2:
+                elif (isinstance(node, ast.Assign) and len(node.targets) == 1 and isinstance(node.targets[0], ast.Subscript)
+                      and stored_target(node.targets[0]) and _is_sum(al, node.value)):
+                    modes.add("AddInPlace")
+                elif (isinstance(node, ast.Call) and _np_call(node, ("add",)) and len(node.args) == 2
+                      and _is_sum(al, ast.BinOp(left=node.args[0], op=ast.Add(), right=node.args[1]))):
                     modes.add("AddInPlace")
                 else:
                     fail(node, "add_charge_array: in-place write into self._array of a shape that is not accepted")
